@@ -50,10 +50,12 @@ void a_str_swap(a_str *lhs, a_str *rhs)
 
 char *a_str_exit(a_str *ctx)
 {
-    char *const str = ctx->ptr_;
+    char *str = ctx->ptr_;
     if (ctx->ptr_)
     {
-        ctx->ptr_[ctx->num_] = 0;
+        /* the non-terminating append variants may have filled the block completely */
+        if (ctx->num_ >= ctx->mem_ && a_str_setm_(ctx, ctx->num_ + 1) == 0) { str = ctx->ptr_; }
+        if (ctx->num_ < ctx->mem_) { str[ctx->num_] = 0; }
         ctx->ptr_ = A_NULL;
     }
     ctx->num_ = 0;
